@@ -321,6 +321,7 @@ func run(c *mc.Ctx) {
 	c.Rep.Extra["backend"] = map[string]interface{}{"limbs": nl, "portable_loop_hook": field.VerifHasGeneric && is64}
 	selfCheck(c)
 	corners(c)
+	constantSeams(c)
 	values(c)
 	vectorLanes(c)
 	c.Require("mul", 1000000)
@@ -336,6 +337,58 @@ func run(c *mc.Ctx) {
 	c.Require("wide/bit255", 50)
 	c.Require("wide/bit511", 50)
 	c.Require("batchinvert/with-zero", 100)
+}
+
+// ---------------------------------------------------------------------------
+// constant-multiplier seams (64-bit backends): Mul121666 forms a_i*121666 as a 128-bit product and adds the
+// carry of the previous limb to its LOW word; that addition crosses 2^64 only when a_i is within a few units of
+// ceil(j*2^64/121666) and the incoming carry is large.  Limb corners never come near those values, so they are
+// enumerated here: every j whose seam lies inside the documented headroom, small offsets on both sides, at every
+// limb position, over lower neighbours that maximise / minimise the incoming carry.  (Added after the
+// independently seeded change C07-3 - a carry dropped in exactly this addition - passed the corner products.)
+func constantSeams(c *mc.Ctx) {
+	if !is64 {
+		return
+	}
+	two64 := new(big.Int).Lsh(big.NewInt(1), 64)
+	var es []*el
+	for _, k := range []int64{121666} {
+		kk := big.NewInt(k)
+		for j := int64(1); ; j++ {
+			v := new(big.Int).Mul(big.NewInt(j), two64)
+			v.Add(v, new(big.Int).Sub(kk, big.NewInt(1)))
+			v.Div(v, kk) // ceil(j*2^64/k)
+			if v.BitLen() > 54 {
+				break
+			}
+			for e := int64(-3); e <= 3; e++ {
+				x := new(big.Int).Sub(v, big.NewInt(e))
+				if x.Sign() <= 0 || x.BitLen() > 54 {
+					continue
+				}
+				for pos := 0; pos < 5; pos++ {
+					for _, low := range []uint64{0, 1<<51 - 1, 1<<54 - 1} {
+						for _, rest := range []uint64{0, 1<<54 - 1} {
+							l := make([]uint64, 5)
+							for i := range l {
+								l[i] = rest
+							}
+							l[pos] = x.Uint64()
+							l[(pos+4)%5] = low
+							es = append(es, mkEl(l))
+						}
+					}
+				}
+			}
+		}
+	}
+	es = dedup(es)
+	c.Rep.Extra["constant_seam_elements"] = len(es)
+	c.Par("constant-seams", len(es), func(w *mc.W, i int) {
+		s := pool.Get().(*scratch)
+		defer pool.Put(s)
+		cheapUnary(chk{w, s}, es[i])
+	})
 }
 
 // ---------------------------------------------------------------------------
